@@ -184,7 +184,7 @@ func runC01(p *engine.Prog, r *engine.Report) {
 				if !ok {
 					continue
 				}
-				x, ok := loadOfField(mu.Map, c.fNewTargets)
+				x, ok := c.postedListOwner(mu)
 				if !ok {
 					continue
 				}
